@@ -73,17 +73,48 @@ func runC19(c *Ctx) {
 		class, detail := "", ""
 		nOps := 3 + r.Intn(12)
 		selects := 0
+		// a third of the histories start with the "closed twin" pattern: a session to address 0, one to
+		// address 1, the first is lost, a new one to address 0 is opened (both twins registered), then the
+		// xid of address 0 is routed (the map may enumerate the closed twin first)
+		twin := -1
+		if nAddr >= 2 && r.Chance(33) {
+			twin = 0
+		}
 		for k := 0; k < nOps || selects == 0; k++ {
-			switch x := r.Intn(10); {
+			x := r.Intn(10)
+			forcedAddr, forcedXid, forcedClose := "", "", 0
+			if twin >= 0 && twin < 5 {
+				switch twin {
+				case 0:
+					x, forcedAddr = 0, addrs[0]
+				case 1:
+					x, forcedAddr = 0, addrs[1]
+				case 2:
+					x, forcedClose = 3, 1
+				case 3:
+					x, forcedAddr = 0, addrs[0]
+				case 4:
+					x, forcedXid = 9, fmt.Sprintf("%s:%d", addrs[0], r.Intn(100000))
+				}
+				twin++
+			}
+			switch {
 			case x < 3 || nextID == 0:
 				nextID++
-				s := &FakeSession{id: nextID, addr: addrs[r.Intn(nAddr)], attrs: map[interface{}]interface{}{}}
+				a0 := addrs[r.Intn(nAddr)]
+				if forcedAddr != "" {
+					a0 = forcedAddr
+				}
+				s := &FakeSession{id: nextID, addr: a0, attrs: map[interface{}]interface{}{}}
 				byID[nextID] = s
 				registered[nextID] = true
 				sessions.Store(s, true)
 				ops = append(ops, fmt.Sprintf("o@%d@%s", nextID, s.addr))
 			case x == 3:
 				id := 1 + r.Intn(nextID)
+				if forcedClose != 0 {
+					id = forcedClose
+				}
 				byID[id].Close()
 				ops = append(ops, fmt.Sprintf("c@%d", id))
 			case x == 4:
@@ -110,7 +141,13 @@ func runC19(c *Ctx) {
 					p = c19Policies[r.Intn(len(c19Policies))]
 				}
 				var xid string
-				switch r.Intn(5) {
+				pick := r.Intn(5)
+				if forcedXid != "" {
+					p, pick = "XID", -1
+					xid = forcedXid
+				}
+				switch pick {
+				case -1:
 				case 0:
 					xid = fmt.Sprintf("%s:%d", addrs[r.Intn(nAddr)], r.Intn(100000))
 				case 1:
